@@ -236,6 +236,19 @@ func (g *gen) next(w *world) []string {
 		add(misuse, "rt", "restorenext")
 		add(misuse/2, "rt", "raw", "GET", "/2018-06-01/runtime/nonexistent")
 		add(misuse/2, "rt", "raw", "POST", "/2018-06-01/runtime/invocation/next")
+		if g.r.Intn(3) == 0 {
+			// the rest of the route table: telemetry stubs (PUT only), wrong methods, routes of the other mode
+			raws := [][2]string{{"PUT", "/2020-08-15/logs"}, {"GET", "/2020-08-15/logs"}, {"PUT", "/2022-07-01/telemetry"}, {"POST", "/2022-07-01/telemetry"},
+				{"GET", "/2018-06-01/ping"}, {"POST", "/2018-06-01/ping"}, {"GET", "/2020-01-01/extension/register"}, {"PUT", "/2020-01-01/extension/event/next"},
+				{"GET", "/2018-06-01/runtime/init/error"}, {"GET", "/2019-01-01/runtime/invocation/next"}, {"DELETE", "/2018-06-01/runtime/invocation/next"}}
+			if !g.cfg.snapshot {
+				raws = append(raws, [2]string{"GET", "/2021-04-23/credentials"}, [2]string{"POST", "/2018-06-01/runtime/restore/error"})
+			} else {
+				raws = append(raws, [2]string{"POST", "/2021-04-23/credentials"}, [2]string{"GET", "/2018-06-01/runtime/restore/error"})
+			}
+			rw := raws[g.r.Intn(len(raws))]
+			add(misuse, "rt", "raw", rw[0], rw[1])
+		}
 		add(fault, "exit", "runtime", []string{"0", "1", "2", "sig11"}[g.r.Intn(4)])
 		if !g.everNext["rt"] {
 			add(fault, "rt", "initerror", "Runtime.InitBoom")
@@ -260,6 +273,8 @@ func (g *gen) next(w *world) []string {
 			add(6, "sleep", "400")
 		}
 		add(6, "rt", "creds", []string{"good", "wrong", "good", ""}[g.r.Intn(3)])
+		add(2, "rt", "raw", []string{"GET", "PUT"}[g.r.Intn(2)], "/2018-06-01/runtime/restore/error") // snapshot-only routes, wrong method
+		add(2, "rt", "raw", "POST", "/2021-04-23/credentials")
 		add(2, "exit", "runtime", "1")
 	}
 	if g.family == "shutdown" {
